@@ -120,9 +120,9 @@ def model_check(module, cfg, scratch, workers=16, timeout=3600, heap="8g", extra
         raise MachineryError("no statistics from TLC for %s/%s" % (module, cfg))
     cov = {}
     if coverage:
-        for mm in re.finditer(r"^<(\w+) line (\d+), col (\d+) to line \d+, col \d+ of module \w+[^>]*>: (\d+):(\d+)", out, re.M):
-            key = mm.group(1) if mm.group(1) != "Next" else "Next@%s:%s" % (mm.group(2), mm.group(3))
-            cov[key] = max(cov.get(key, 0), int(mm.group(5)))
+        for mm in re.finditer(r"^<(\w+) line \d+, col \d+ to line \d+, col \d+ of module \w+(?: \(([\d ]+)\))?>: (\d+):(\d+)", out, re.M):
+            key = mm.group(1) + ("@" + mm.group(2).replace(" ", ".") if mm.group(2) else "")
+            cov[key] = max(cov.get(key, 0), int(mm.group(4)))
     return {"states": stats["distinct"] if stats else 0, "transitions": stats["generated"] if stats else 0,
             "ok": ok, "violated": violated, "out": out, "wall_s": wall, "coverage": cov}
 
